@@ -56,4 +56,34 @@ def emitState (ds : List DeclInfo) : List Nat × List Nat :=
 def emitOrder (ds : List DeclInfo) : List Nat :=
   (emitState ds).2
 
+/-! ### The units of ordering (`declUnits`, interface.go)
+
+A top-level Go declaration is a function, a type, an import group — one unit — or a `const (…)` / `var (…)` group of specs.
+`declUnits` makes every spec of a group with more than one spec a unit of its own (Go lets the specs of a group, and of
+different groups, mention each other in any order); a group of at most one spec stays the unit it is. -/
+
+inductive TopDecl where
+  /-- a function, method, type or import declaration, or a const/var declaration without parentheses -/
+  | single (d : DeclInfo)
+  /-- a parenthesised const or var group: what each of its specs defines and mentions -/
+  | group (specs : List DeclInfo)
+  deriving Repr
+
+/-- what translating a whole group as ONE unit records: all names, all dependencies (the behaviour before the repair
+374b9a4, and still that of a group with at most one spec) -/
+def mergeSpecs (specs : List DeclInfo) : DeclInfo :=
+  ⟨specs.flatMap (·.names), specs.flatMap (·.deps)⟩
+
+def unitsOf : TopDecl → List DeclInfo
+  | .single d => [d]
+  | .group specs => if specs.length ≤ 1 then [mergeSpecs specs] else specs
+
+/-- the units `Decls` numbers, records and orders: file by file, declaration by declaration, spec by spec -/
+def declUnits (tops : List TopDecl) : List DeclInfo :=
+  tops.flatMap unitsOf
+
+/-- the old granularity (every group one unit), for comparison -/
+def declGroups (tops : List TopDecl) : List DeclInfo :=
+  tops.map (fun t => match t with | .single d => d | .group specs => mergeSpecs specs)
+
 end GooseVerif.Model.Deps
